@@ -1,6 +1,7 @@
 package main
 
 import (
+	"github.com/oasisprotocol/oasis-core/go/common"
 	beacon "github.com/oasisprotocol/oasis-core/go/beacon/api"
 	"github.com/oasisprotocol/oasis-core/go/common/crypto/signature"
 	"github.com/oasisprotocol/oasis-core/go/common/entity"
@@ -9,6 +10,8 @@ import (
 	roothash "github.com/oasisprotocol/oasis-core/go/roothash/api"
 	staking "github.com/oasisprotocol/oasis-core/go/staking/api"
 	vault "github.com/oasisprotocol/oasis-core/go/vault/api"
+
+	"verif/harness/internal/chain"
 )
 
 // nodeTx builds a RegisterNode transaction: descriptor desc signed by signers
@@ -119,4 +122,41 @@ func (w *world) miscTxs() []txT {
 		{Name: "registry.ProveFreshness(n0)", Signer: k.Nodes[0].NodeSigner, Method: registry.MethodProveFreshness, Body: [32]byte{1, 2, 3}},
 		{Name: "registry.ProveFreshness(a0 not a node)", Signer: k.Accounts[0], Method: registry.MethodProveFreshness, Body: [32]byte{1, 2, 3}, FeeAmt: 1},
 	}
+}
+
+// runtimeTxs: transactions that involve the universe's compute runtime (only
+// meaningful with GenesisOptions.Runtime).
+func (w *world) runtimeTxs() []txT {
+	k := w.keys
+	rid := chain.RuntimeID()
+	rt := func(f func(r *registry.Runtime)) *registry.Runtime {
+		r := k.RuntimeDescriptor(0, w.opts)
+		f(r)
+		return r
+	}
+	other := common.NewTestNamespaceFromSeed([]byte("verif runtime 1"), common.NamespaceTest)
+	ts := []txT{
+		{Name: "submitmsg(a0,fee1,tokens2)", Signer: k.Accounts[0], Method: roothash.MethodSubmitMsg, Body: roothash.SubmitMsg{ID: rid, Tag: 7, Fee: qq(1), Tokens: qq(2), Data: []byte("m")}, FeeAmt: 1},
+		{Name: "submitmsg(a1,fee3,tokens0)", Signer: k.Accounts[1], Method: roothash.MethodSubmitMsg, Body: roothash.SubmitMsg{ID: rid, Fee: qq(3)}},
+		{Name: "submitmsg(a0,fee0<min)", Signer: k.Accounts[0], Method: roothash.MethodSubmitMsg, Body: roothash.SubmitMsg{ID: rid, Tokens: qq(2)}},
+		{Name: "submitmsg(a0,tokens>balance)", Signer: k.Accounts[0], Method: roothash.MethodSubmitMsg, Body: roothash.SubmitMsg{ID: rid, Fee: qq(1), Tokens: qq(5000)}},
+		{Name: "submitmsg(a2 empty)", Signer: k.Accounts[2], Method: roothash.MethodSubmitMsg, Body: roothash.SubmitMsg{ID: rid, Fee: qq(1)}},
+		{Name: "submitmsg(a0,other runtime)", Signer: k.Accounts[0], Method: roothash.MethodSubmitMsg, Body: roothash.SubmitMsg{ID: other, Fee: qq(1)}},
+		{Name: "runtime-update(e0,max-in-msgs+1)", Signer: k.Entities[0], Method: registry.MethodRegisterRuntime, Body: rt(func(r *registry.Runtime) { r.TxnScheduler.MaxInMessages++ })},
+		{Name: "runtime-update(e1 not owner)", Signer: k.Entities[1], Method: registry.MethodRegisterRuntime, Body: rt(func(r *registry.Runtime) { r.TxnScheduler.MaxInMessages++ })},
+		{Name: "runtime-update(e0,owner->e1)", Signer: k.Entities[0], Method: registry.MethodRegisterRuntime, Body: rt(func(r *registry.Runtime) { r.EntityID = k.Entities[1].Public() })},
+		{Name: "runtime-update(e0,->runtime governance)", Signer: k.Entities[0], Method: registry.MethodRegisterRuntime, Body: rt(func(r *registry.Runtime) { r.GovernanceModel = registry.GovernanceRuntime })},
+		{Name: "runtime-update(e0,kind->keymanager)", Signer: k.Entities[0], Method: registry.MethodRegisterRuntime, Body: rt(func(r *registry.Runtime) { r.Kind = registry.KindKeyManager })},
+		{Name: "runtime-update(e0,group size 0)", Signer: k.Entities[0], Method: registry.MethodRegisterRuntime, Body: rt(func(r *registry.Runtime) { r.Executor.GroupSize = 0 })},
+		{Name: "runtime-new(e1)", Signer: k.Entities[1], Method: registry.MethodRegisterRuntime, Body: rt(func(r *registry.Runtime) { r.ID = other; r.EntityID = k.Entities[1].Public() })},
+		{Name: "runtime-new(e2,runtime governance)", Signer: k.Entities[2], Method: registry.MethodRegisterRuntime, Body: rt(func(r *registry.Runtime) {
+			r.ID = other
+			r.EntityID = k.Entities[2].Public()
+			r.GovernanceModel = registry.GovernanceRuntime
+		})},
+		{Name: "runtime-new(a0 no entity)", Signer: k.Accounts[0], Method: registry.MethodRegisterRuntime, Body: rt(func(r *registry.Runtime) { r.ID = other; r.EntityID = k.Accounts[0].Public() })},
+		{Name: "executor-commit(n0,empty)", Signer: k.Nodes[0].NodeSigner, Method: roothash.MethodExecutorCommit, Body: roothash.ExecutorCommit{ID: rid}},
+		{Name: "roothash-evidence(a0,empty)", Signer: k.Accounts[0], Method: roothash.MethodEvidence, Body: roothash.Evidence{ID: rid}},
+	}
+	return ts
 }
